@@ -11,7 +11,7 @@ import (
 
 // C08 — decoding is independent of how the transport segments the byte stream.
 func C08(c *vk.Ctx) {
-	c.Rule("server streams = all scripts of length <= n (quick 2, thorough 3) over the C03 packet alphabet, rendered at revisions 54460 and 54405, plain and LZ4, typed and Auto binding; segmentations of each stream: one byte per read, every two-piece split (all offsets), an idle gap longer than the read timeout before every packet (clock steps, read deadline fires and is retried), for streams <= 16 bytes all 2^(n-1) segmentations, and (thorough) every three-piece split of streams <= 96 bytes. Each case is one execution of the real Connect + Do; oracle: callback trace and return value equal the reference interpreter's, i.e. the unsegmented outcome. distinct_nontrivial = (stream, segmentation) cases.")
+	c.Rule("server streams = all scripts of length <= n (quick 2, thorough 3) over the C03 packet alphabet, rendered at revisions 54460 and 54405, plain and LZ4, typed and Auto binding; segmentations of each stream: one byte per read, every two-piece split (all offsets), the same deliveries with the server closing right after its last byte and the transport returning the end of the stream together with the last bytes (n > 0 with io.EOF, as crypto/tls does), an idle gap longer than the read timeout before every packet (clock steps, read deadline fires and is retried), for streams <= 16 bytes all 2^(n-1) segmentations, and (thorough) every three-piece split of streams <= 96 bytes. Each case is one execution of the real Connect + Do; oracle: callback trace and return value equal the reference interpreter's, i.e. the unsegmented outcome. distinct_nontrivial = (stream, segmentation) cases.")
 	quick := c.Quick()
 	maxLen := 2
 	if !quick {
@@ -75,6 +75,13 @@ func C08(c *vk.Ctx) {
 					run(k, seg{gaps: true}, "gaps", "gaps")
 					for i := 1; i < n; i++ {
 						run(k, seg{cuts: []int{i}}, "two-piece", fmt.Sprintf("%d", i))
+					}
+					// the server closes right after its last byte and the transport reports the end
+					// of the stream together with the last bytes (n > 0 with io.EOF)
+					run(k, seg{closing: true}, "eof-with-last-bytes", "eof")
+					run(k, seg{closing: true, oneByte: true}, "eof-with-last-bytes", "eof-1b")
+					for i := 1; i < n; i++ {
+						run(k, seg{cuts: []int{i}, closing: true}, "eof-with-last-bytes", fmt.Sprintf("eof-%d", i))
 					}
 					if n <= 16 {
 						for m := 0; m < 1<<(n-1); m++ {
